@@ -396,7 +396,9 @@ def run(ctx: Ctx) -> None:
             sc0.close()
         n = ctx.shard[0] + 1
         step = ctx.shard[1] * ctx.pick(2, 1)
-        while not ctx.out_of_time():
+        first = True
+        while first or not ctx.out_of_time():  # at least one system-call level kill per shard and flavour, whatever the budget
+            first = False
             sc = Scene(kind, 0)
             try:
                 res = run_child(sc, ops, ids, None, "before", None, strace_kill_at_pwrite=n)
